@@ -2,7 +2,7 @@ package main
 
 // C16 — every address has one zone and one ledger, respected by all state.
 //
-// Three bounded-exhaustive parts, all executed on the REAL code:
+// Bounded-exhaustive parts, all executed on the REAL code (part sender-cache: see c16_sender.go):
 //
 //   classify  every way of building a common.Address (bytes of every length 0..33, [20]byte, hex,
 //             big.Int, proto, RLP, text, JSON, mixed-case JSON, sql Scan, pubkey, CREATE, CREATE2,
@@ -79,10 +79,11 @@ type c16Div struct{ Key, Desc string }
 
 // c16Replay is the artefact of any C16 violation: which part, and the part's own case.
 type c16Replay struct {
-	Part  string        `json:"part"`
-	Class *c16ClassCase `json:"classify,omitempty"`
-	State *c16StateCase `json:"state,omitempty"`
-	Qi    *c16QiCase    `json:"qitx,omitempty"`
+	Part   string         `json:"part"`
+	Class  *c16ClassCase  `json:"classify,omitempty"`
+	State  *c16StateCase  `json:"state,omitempty"`
+	Qi     *c16QiCase     `json:"qitx,omitempty"`
+	Sender *c16SenderCase `json:"sender_cache,omitempty"`
 }
 
 func c16Hex(b []byte) string { return hex.EncodeToString(b) }
@@ -102,6 +103,9 @@ func runC16(c *vx.Ctx) {
 	// cheap parts first, so that a deadline can only cut the widest sweep
 	if c.Wants("qitx") {
 		c16QiTx(c)
+	}
+	if c.Wants("sender-cache") {
+		c16SenderCache(c)
 	}
 	if c.Wants("classify") {
 		c16Classify(c, 1)
@@ -129,6 +133,8 @@ func replayC16(c *vx.Ctx, v vx.Violation) string {
 		divs = c16StateReplay(*r.State)
 	case r.Qi != nil:
 		divs = c16QiExec(*r.Qi, nil)
+	case r.Sender != nil:
+		divs, _ = c16SenderExec(*r.Sender)
 	default:
 		return "bad replay: no case"
 	}
